@@ -25,12 +25,11 @@ ASSUMPTIONS = [
 CORE_ALLOWED = ("optional_zero", "str_with_squote", 
     "kwargs_param", "multiline_summary", "float_default", "negative_int", "zero_int", "bool_false", "none_default",
     "prose_trailing_stop", "required_bool", "no_params", "str_with_space", "code_default", "int_under_nonscalar_type",
-    "default_words", "prose_punct", "optional_prose", "union_with_str", "str_with_dot", "code_default_dot",
-)
+    "default_words", "prose_punct", "optional_prose", "union_with_str", "str_with_dot", "code_default_dot", "kwargs_sole_default")
 # shapes of open findings: excluded from the core by construction, each probed by its own frontier budget
 FRONTIER_KNOBS = irprops.frontier_knobs((
     "untyped_param", "undocumented_param", "default_without_prose", "bare_param", "str_with_space",
-    "empty_str", "str_with_quote",
+    "empty_str", "str_with_quote", "kwargs_sole_default_bare",
     "nodefault_after_default", "returns", "returns_default", "returns_untyped",
     "returns_undocumented", "returns_only", "multiline_prose", "foreign_tokens", "foreign_tokens_strong",
 ))
